@@ -25,6 +25,8 @@ EXPLANATION = (
     "boundaries is ring arithmetic (C01) and is not decided here.")
 
 CONSUMERS = ["frame_iterator_next", "vfslice_split_at_delay_ms", "trash_append"]
+EXPLANATION += (' Added: the rounded size covers header + image (linear lower bound); a region is committed only after its header was filled, the write aborted, or - in the filter - with an own mapping; frame walks yield frames exactly while the cursor is below the end (linear domain); R-INDEX: type tables are indexed within bounds.')
+
 
 
 def witnesses(ctx, res):
